@@ -184,8 +184,8 @@ func (w *writer) geom(g geom.Geom) {
 // ---------- geometry generator ----------
 
 type gen struct {
-	t     *tape.Tape
-	big   bool
+	t      *tape.Tape
+	big    bool
 	exotic bool
 }
 
@@ -367,14 +367,14 @@ func allocated() uint64 {
 var errEIO = errors.New("verif: injected I/O error")
 
 type simReader struct {
-	data    []byte
-	pos     int
-	chunk   int // max bytes per Read (0 = all)
-	failAt  int // -1 = never; a Read that would cross failAt delivers up to it, then the next returns err
-	failErr error
-	zeroAt  int // every zeroAt-th Read returns (0, nil) once (0 = never)
-	reads   int
-	fired   bool
+	data        []byte
+	pos         int
+	chunk       int // max bytes per Read (0 = all)
+	failAt      int // -1 = never; a Read that would cross failAt delivers up to it, then the next returns err
+	failErr     error
+	zeroAt      int // every zeroAt-th Read returns (0, nil) once (0 = never)
+	reads       int
+	fired       bool
 	eofWithData bool
 }
 
@@ -421,15 +421,15 @@ type deferred struct {
 }
 
 type run struct {
-	late []deferred
-	inLate bool
-	t    *tape.Tape
-	log  *core.Log
-	res  *core.Result
-	seen map[uint64]struct{}
+	late      []deferred
+	inLate    bool
+	t         *tape.Tape
+	log       *core.Log
+	res       *core.Result
+	seen      map[uint64]struct{}
 	nDistinct int
-	scheds map[uint64]struct{}
-	evals int64
+	scheds    map[uint64]struct{}
+	evals     int64
 }
 
 func (e *engine) Run(t *tape.Tape, trace bool) core.Result {
@@ -586,11 +586,11 @@ func minimalFrames(n uint32) [][]byte {
 		for code := uint32(2); code <= 7; code++ {
 			out = append(out, cnt(hdr(code), n)) // the element's own count
 		}
-		out = append(out, cnt(cnt(hdr(3), 1), n))                                   // points of a polygon's first ring
-		out = append(out, cnt(append(cnt(hdr(5), 1), hdr(2)...), n))                // points of a multilinestring member
-		out = append(out, cnt(append(cnt(hdr(6), 1), hdr(3)...), n))                // rings of a multipolygon member
-		out = append(out, cnt(cnt(append(cnt(hdr(6), 1), hdr(3)...), 1), n))        // points of a ring of a multipolygon member
-		out = append(out, cnt(append(cnt(hdr(7), 1), hdr(7)...), n))                // nested collection
+		out = append(out, cnt(cnt(hdr(3), 1), n))                                                      // points of a polygon's first ring
+		out = append(out, cnt(append(cnt(hdr(5), 1), hdr(2)...), n))                                   // points of a multilinestring member
+		out = append(out, cnt(append(cnt(hdr(6), 1), hdr(3)...), n))                                   // rings of a multipolygon member
+		out = append(out, cnt(cnt(append(cnt(hdr(6), 1), hdr(3)...), 1), n))                           // points of a ring of a multipolygon member
+		out = append(out, cnt(append(cnt(hdr(7), 1), hdr(7)...), n))                                   // nested collection
 		out = append(out, cnt(append(cnt(hdr(7), 2), append(hdr(1), make([]byte, 16)...)...), 0)[:30]) // collection: point then truncated
 	}
 	return out
